@@ -100,8 +100,8 @@ func vh_C15_Queue_Count() {
 	q := c15Queue()
 	n := -1
 	c15Race(func() { n = q.Count() }, func() { q.Close() })
-	vfAssert("count-sane", n >= 0 && n <= 1)
-	vfAssert("count-after-close", q.Count() == 0)
+	vfAssert("lemma/count-sane", n >= 0 && n <= 1)
+	vfAssert("lemma/count-after-close", q.Count() == 0)
 	vfReach("end")
 }
 
